@@ -307,7 +307,9 @@ def salt_values(fmt, ax, tier, seed, bud):
     raise HarnessError(t)
 
 
-RESIDUES_QUICK = [0, 1, 7, 8, 41, 42, 43, 83, 84, 85]
+# offsets from 1000, chosen by the TAIL (rounds % 42) the round loop is left with: 1008 = 24 * 42, so
+# 1000 -> tail 34, 1008..1011 -> tails 0 1 2 3, 1048 1049 -> tails 40 41, 1050 1051 -> 0 1 again, 1085 -> 35
+RESIDUES_QUICK = [0, 8, 9, 10, 11, 48, 49, 50, 51, 85]
 
 
 def cost_values(fmt, ax, tier, backend, bud):
@@ -321,7 +323,7 @@ def cost_values(fmt, ax, tier, backend, bud):
         res = RESIDUES_QUICK if quick or bud == "wrapper" else list(range(86))
         a = [1000 + r for r in res]
         if bud == "wrapper":
-            return [1000, 1041, 1043], [1000, 1001, 1041, 1042, 1043, 5000]
+            return [1000, 1009, 1049], [1000, 1008, 1009, 1010, 1049, 1050, 5000]
         return a, sorted(set(a) | {1002, 5000, 1000 + 126, 1000 + 127})
     if ra.get("des"):
         return [1, 3, 5], [1, 2, 3, 4, 5, 25, 26, 63, 64, 65, 129] + ([] if quick else [725, 4097])
